@@ -87,11 +87,11 @@ class Population:
         cls_name, serial = desc[0], desc[1]
         if serial in self.objs:
             return None
-        if cls_name == "Boss":
+        if cls_name in ("Boss", "Dean"):
             taker = desc[2]
             if taker not in self.objs or self.cls_of[taker] != "Human":
                 return None
-            obj = oworld.Boss(self.objs[taker], serial, **kwargs)
+            obj = oworld.ONTOLOGY_CLASSES[cls_name](self.objs[taker], serial, **kwargs)
             self.taker_of[serial] = taker
         else:
             obj = oworld.ONTOLOGY_CLASSES[cls_name](serial, **kwargs)
@@ -218,10 +218,10 @@ def shrink_candidates(sc: Dict):
         if op[0] in ("w",):
             used.update(x for x in op[2:] if isinstance(x, int))
     for p in pop:
-        if p[0] == "Boss":
+        if p[0] in ("Boss", "Dean"):
             used.add(p[2]) if p[1] in used else None
     for i in range(len(pop) - 1, -1, -1):
-        if pop[i][1] not in used and not any(q[0] == "Boss" and q[2] == pop[i][1] for q in pop):
+        if pop[i][1] not in used and not any(q[0] in ("Boss", "Dean") and q[2] == pop[i][1] for q in pop):
             c = copy.deepcopy(sc)
             del c["population"][i]
             yield c
